@@ -269,6 +269,7 @@ func (w *verifWireCoordinator) offsetFetch(req offsetFetchRequestV1) (offsetFetc
 	r := w.ask(verifOffsetFetchCall(w.id, req))
 	w.send(9, "offsetFetch", r, func(b *verifW, code int16) string { // [topic [partition offset metadata error_code]]
 		var ts []string
+		entry := 0
 		resp := verifGroupOffsetFetchResponse(r.Committed)
 		if code != 0 && len(resp.Responses) == 0 { // an error needs a partition entry to sit in
 			for _, t := range req.Topics {
@@ -303,6 +304,13 @@ func (w *verifWireCoordinator) offsetFetch(req offsetFetchRequestV1) (offsetFetc
 				if code != 0 && (!r.ErrLast || last) {
 					c = code
 				}
+				if r.Codes != nil {
+					c = 0
+					if entry < len(r.Codes) {
+						c = r.Codes[entry]
+					}
+					entry++
+				}
 				b.i16(c)
 				pp = append(pp, fmt.Sprintf("%d@%d=%d", p.Partition, p.Offset, c))
 			}
@@ -320,6 +328,7 @@ func (w *verifWireCoordinator) offsetCommit(req offsetCommitRequestV2) (offsetCo
 	w.send(8, "offsetCommit", r, func(b *verifW, code int16) string { // [topic [partition error_code]]
 		b.i32(int32(len(req.Topics)))
 		var ts []string
+		entry := 0
 		for ti, t := range req.Topics {
 			b.str(t.Topic)
 			b.i32(int32(len(t.Partitions)))
@@ -331,6 +340,13 @@ func (w *verifWireCoordinator) offsetCommit(req offsetCommitRequestV2) (offsetCo
 				if code != 0 && (!r.ErrLast || last) {
 					c = code
 				}
+				if r.Codes != nil {
+					c = 0
+					if entry < len(r.Codes) {
+						c = r.Codes[entry]
+					}
+					entry++
+				}
 				b.i16(c)
 				pp = append(pp, fmt.Sprintf("%d=%d", p.Partition, c))
 			}
@@ -341,4 +357,49 @@ func (w *verifWireCoordinator) offsetCommit(req offsetCommitRequestV2) (offsetCo
 	res, err := w.tc.offsetCommit(req)
 	w.outcome("offsetCommit", err)
 	return res, err
+}
+
+// VerifGroupWireConclusion sends one OffsetCommit / OffsetFetch for `parts` partitions of topic "t" through a fresh
+// byte-level coordinator whose answer carries the given per-partition error codes, and returns what the library's Conn
+// concluded (nil | k<code> | other).
+func VerifGroupWireConclusion(method string, parts int, codes []int16) string {
+	h := func(c VerifCoordCall) VerifCoordReply {
+		if c.Method == method {
+			return VerifCoordReply{Codes: append([]int16{}, codes...)}
+		}
+		return VerifCoordReply{}
+	}
+	w := newVerifWireCoordinator(0, h, nil)
+	defer w.tc.Close()
+	var err error
+	switch method {
+	case "offsetCommit":
+		req := offsetCommitRequestV2{GroupID: "g", GenerationID: 1, MemberID: "m", RetentionTime: -1}
+		t := offsetCommitRequestV2Topic{Topic: "t"}
+		for p := 0; p < parts; p++ {
+			t.Partitions = append(t.Partitions, offsetCommitRequestV2Partition{Partition: int32(p), Offset: int64(p) + 1})
+		}
+		req.Topics = []offsetCommitRequestV2Topic{t}
+		_, err = w.offsetCommit(req)
+	case "offsetFetch":
+		req := offsetFetchRequestV1{GroupID: "g"}
+		t := offsetFetchRequestV1Topic{Topic: "t"}
+		var cm []VerifGroupOffset
+		for p := 0; p < parts; p++ {
+			t.Partitions = append(t.Partitions, int32(p))
+			cm = append(cm, VerifGroupOffset{Topic: "t", Partition: int32(p), Offset: int64(p)})
+		}
+		req.Topics = []offsetFetchRequestV1Topic{t}
+		hh := h
+		h = func(c VerifCoordCall) VerifCoordReply {
+			r := hh(c)
+			if c.Method == method {
+				r.Committed = cm
+			}
+			return r
+		}
+		w.h = h
+		_, err = w.offsetFetch(req)
+	}
+	return verifGroupErr(err)
 }
